@@ -31,11 +31,12 @@ def key_hash(k):
     return b58.check_encode(b58.P['expr'], hashlib.blake2b(packed, digest_size=32).digest())
 
 
+# model value v in 1..MaxVal is the nat v - 1, so that the falsy Python value 0 is among the bound values
 OPS = {
     'get': lambda k, v: 'DUP ; PUSH string "%s" ; GET ; DIG 2 ; SWAP ; CONS ; SWAP' % k,
     'mem': lambda k, v: 'DUP ; PUSH string "%s" ; MEM ; DIG 3 ; SWAP ; CONS ; DUG 2' % k,
-    'upd': lambda k, v: 'PUSH (option nat) %s ; PUSH string "%s" ; UPDATE' % ('(Some %d)' % v if v else 'None', k),
-    'gau': lambda k, v: 'PUSH (option nat) %s ; PUSH string "%s" ; GET_AND_UPDATE ; DIG 2 ; SWAP ; CONS ; SWAP' % ('(Some %d)' % v if v else 'None', k),
+    'upd': lambda k, v: 'PUSH (option nat) %s ; PUSH string "%s" ; UPDATE' % ('(Some %d)' % (v - 1) if v else 'None', k),
+    'gau': lambda k, v: 'PUSH (option nat) %s ; PUSH string "%s" ; GET_AND_UPDATE ; DIG 2 ; SWAP ; CONS ; SWAP' % ('(Some %d)' % (v - 1) if v else 'None', k),
 }
 
 
@@ -50,11 +51,11 @@ def run_impl(mode, chain, literal, hist):
     from pytezos.michelson.repl import Interpreter
     from pytezos.rpc.shell import ShellQuery
     from ..bigmapnode import BigMapNode
-    node = BigMapNode({BM_ID: {key_hash(k): {'int': str(v)} for k, v in chain.items() if v}})
+    node = BigMapNode({BM_ID: {key_hash(k): {'int': str(v - 1)} for k, v in chain.items() if v}})
     if mode == 'existing':
         bm = {'int': str(BM_ID)}
     else:
-        bm = [{'prim': 'Elt', 'args': [{'string': k}, {'int': str(v)}]} for k, v in sorted(literal.items()) if v > 0]
+        bm = [{'prim': 'Elt', 'args': [{'string': k}, {'int': str(v - 1)}]} for k, v in sorted(literal.items()) if v > 0]
     storage = {'prim': 'Pair', 'args': [bm, {'prim': 'Pair', 'args': [[], []]}]}
     ops, st, lazy_diff, stdout, err = Interpreter.run_code(parameter={'prim': 'Unit'}, storage=storage, script=michelson_to_micheline(script(hist)),
                                                           shell=ShellQuery(node=node))
@@ -78,7 +79,7 @@ def compare(ctx, mode, chain, hist, obs, flat, literal):
         ctx.mismatch('C15:run:raises', '%s: run_code failed: %s' % (desc, str(err)[:300]), case)
         return False
     bm, gets, mems = flat_args(st)
-    got_gets = [None if g['prim'] == 'None' else int(g['args'][0]['int']) for g in reversed(gets)]
+    got_gets = [None if g['prim'] == 'None' else int(g['args'][0]['int']) + 1 for g in reversed(gets)]
     got_mems = [m['prim'] == 'True' for m in reversed(mems)]
     want_gets = [o[1] if o[1] else None for o in obs if o[0] == 'get']
     want_mems = [o[1] for o in obs if o[0] == 'mem']
@@ -109,7 +110,7 @@ def compare(ctx, mode, chain, hist, obs, flat, literal):
             ctx.mismatch('C15:diff:duplicate-entry', '%s: key %r occurs twice in the diff %s' % (desc, k, json.dumps(d['diff']['updates'])), case)
             ok = False
         seen.add(k)
-        result[k] = int(u['value']['int']) if 'value' in u else 0
+        result[k] = int(u['value']['int']) + 1 if 'value' in u else 0
     if {k: v for k, v in result.items()} != flat:
         ctx.mismatch('C15:diff:apply', '%s: diff %s applied to chain gives %s, final dictionary is %s' % (desc, json.dumps(d['diff'].get('updates')), result, flat), case)
         ok = False
@@ -130,7 +131,7 @@ def run(ctx):
     if not ctx.quick:
         inits = inits[:2] + inits[4:6] + [('existing', (2, 1, 0), (0, 0, 0))]
     else:
-        inits = [inits[0], inits[3], inits[4], inits[6]]
+        inits = [inits[0], inits[3], inits[6]]
     init_tla = '{' + ', '.join('<<"%s", F(%d, %d, %d), F(%d, %d, %d)>>' % ((m,) + c + l) for m, c, l in inits) + '}'
     gen = {'BigMapLayerMC': MC % init_tla}
     r = ctx.tlc('BigMapLayerMC', CFG % (', '.join('"%s"' % k for k in keys), depth), gen=gen, timeout=1500, coverage=True)
